@@ -118,6 +118,12 @@ Example C07_examples :
   class_pos CLASS_INVALID = 309.
 Proof. repeat split; vm_compute; reflexivity. Qed.
 
+From CKC Require Import Model.Proj Proofs.ProjC07.
+(* the `hrkey` line of the correspondence check is the constant `1 1 1` on all pairs of u16 values: cmp is what
+   the property fixes; == agrees with it and with equality of the values; < <= > >= agree with it *)
+Theorem C07_projection : forall a b, a < 65536 -> b < 65536 -> proj_hrkey a b = [true; true; true].
+Proof. exact proj_hrkey_const. Qed.
+
 Print Assumptions C07_key.
 Print Assumptions C07_reflexive.
 Print Assumptions C07_antisymmetric.
@@ -129,3 +135,4 @@ Print Assumptions C07_operators.
 Print Assumptions C07_operators_key.
 Print Assumptions C07_enums.
 Print Assumptions C07_unrepaired_refuted.
+Print Assumptions C07_projection.
